@@ -766,9 +766,14 @@ func genClientDoc(g *gen, nProxies, nVisitors int) *clientDoc {
 	d := &clientDoc{Tree: &obj{}}
 	build(g, clientCommonFields, reflect.ValueOf(&d.Common).Elem(), d.Tree)
 	// a valid configuration: heartbeat timeout not below the interval when both are positive
-	if t, i := d.Common.Transport.HeartbeatTimeout, d.Common.Transport.HeartbeatInterval; t > 0 && i > 0 && t < i {
-		d.Common.Transport.HeartbeatTimeout = i
-		d.Tree.setPath("transport.heartbeatTimeout", i)
+	if t, i := d.Common.Transport.HeartbeatTimeout, d.Common.Transport.HeartbeatInterval; t > 0 && i > 0 && t <= i {
+		if i > math.MaxInt32 {
+			i = 30
+			d.Common.Transport.HeartbeatInterval = i
+			d.Tree.setPath("transport.heartbeatInterval", i)
+		}
+		d.Common.Transport.HeartbeatTimeout = i + 60
+		d.Tree.setPath("transport.heartbeatTimeout", i+60)
 	}
 	var pl, vl []any
 	for i := 0; i < nProxies; i++ {
